@@ -221,7 +221,7 @@ func dedupe(ops []Op) []Op {
 // of every function of the vocabulary, plus over-long counts.
 func Tiny(rows, cols int) []Op {
 	return dedupe([]Op{T("x"), T("世"), P("CR"), P("LF"), P("RI"), P("DECSC"), P("DECRC"), P("ALTON"), P("ALTOFF"),
-		P("ALT47ON"), P("ALT47OFF"), P("ALT1047OFF"), S([]int{21}),
+		P("ALT47ON"), P("ALT47OFF"),
 		P("CUP"), P("CUP", 2, 2), P("CUU"), P("CUD"), P("CUF"), P("CUB"), P("ED"), P("ED", 1), P("ED", 2), P("EL"), P("EL", 1),
 		P("ECH", 2), P("ICH"), P("DCH"), P("IL"), P("DL"), P("SU"), P("SD"), P("DECSTBM", 1, 2), P("DECSTBM", 2, rows),
 		P("DECSTBM"), S([]int{41}), P("IL", rows+1), P("DL", rows+1), P("ICH", cols+1), P("DCH", cols+1), P("CNL"), P("CHA", cols)})
